@@ -34,7 +34,7 @@ SHARDS = {"quick": 8, "thorough": 16}
 
 @st.composite
 def scenarios(draw):
-    spec = draw(SS.configs(return_as=("list", "list", "generator")))
+    spec = draw(SS.configs(return_as=("list", "list", "generator", "generator_unordered")))
     n_calls = draw(st.integers(2, 4))
     calls = []
     any_timeout = False
